@@ -48,6 +48,9 @@ pub struct Field {
     pub name: String,
     pub ty: Ty,
     pub path: Option<String>,
+    /// values the protocol documents as special for this field (`notable=a,b,..` in the spec): they join
+    /// the field's boundary set wherever fields are combined
+    pub notable: Vec<i64>,
 }
 
 #[derive(Clone, Debug)]
@@ -230,7 +233,8 @@ fn parse_field(line: &str, lines: &mut std::iter::Peekable<std::str::Lines>) -> 
         Ty::Count(_) => None,
         _ => path,
     };
-    Field { name, ty, path }
+    let notable: Vec<i64> = kv("notable").map(|s| s.split(',').filter_map(|x| x.parse().ok()).collect()).unwrap_or_default();
+    Field { name, ty, path, notable }
 }
 
 pub fn load() -> Vec<Kind> {
@@ -1187,7 +1191,11 @@ pub fn describe_path(root: &Value, path: &str) -> String {
 /// A handful of boundary values per field for the pairwise blocks of Gen (empty = field does not
 /// take part: lists, spares, counts, tags).
 pub fn pair_values(f: &Field, depth: Depth) -> Vec<Val> {
-    let n = |v: &[i64]| v.iter().map(|x| Val::N(*x)).collect::<Vec<_>>();
+    let n = |v: &[i64]| {
+        let mut out = v.iter().map(|x| Val::N(*x)).collect::<Vec<_>>();
+        for x in &f.notable { if !out.contains(&Val::N(*x)) { out.push(Val::N(*x)); } }
+        out
+    };
     match &f.ty {
         // full depth: the whole byte, so that the product of two byte fields is complete (a
         // condition on two particular mid-range values is met); light: boundaries and a few mid values
